@@ -106,6 +106,7 @@ type vfObj struct {
 	maxInflight     atomic.Int32
 	inflightAtClose atomic.Int32 // in-flight ReadAt/WriteAt observed when Close was invoked (max)
 	statCalls       atomic.Int32
+	poison          atomic.Bool  // set by TransferError when the store is configured that way: later reads and writes fail
 	closedBeforeTE  atomic.Int32 // TransferError delivered after Close
 	closed          atomic.Bool
 	ctxDoneAtClose  atomic.Bool
@@ -154,6 +155,9 @@ type vfStore struct {
 	// answer around). Only meaningful when requests are issued one at a time.
 	SharedReplies bool
 	sharedVFS     *StatVFS
+	// TransferErrorPoisons: an object that was told of a transfer error refuses further reads and writes (as the
+	// package's own in-memory file does)
+	TransferErrorPoisons bool
 	// CtxBoundObjects: ReadAt/WriteAt of handler objects fail once the context of the request that opened them is done
 	// (an object that passes the context on to its backend)
 	CtxBoundObjects bool
@@ -292,6 +296,9 @@ func (o *vfObj) ReadAt(p []byte, off int64) (int, error) {
 	if o.st.CtxBoundObjects && o.ctx.Err() != nil {
 		return 0, o.ctx.Err()
 	}
+	if o.poison.Load() {
+		return 0, fmt.Errorf("object was told of a transfer error")
+	}
 	if off < 0 {
 		return 0, fmt.Errorf("negative offset %d", off)
 	}
@@ -332,6 +339,9 @@ func (o *vfObj) WriteAt(p []byte, off int64) (int, error) {
 	}
 	if o.st.CtxBoundObjects && o.ctx.Err() != nil {
 		return 0, o.ctx.Err()
+	}
+	if o.poison.Load() {
+		return 0, fmt.Errorf("object was told of a transfer error")
 	}
 	if off < 0 || off > 1<<26 {
 		return 0, fmt.Errorf("offset %d out of the store's range", off)
@@ -398,6 +408,9 @@ func (o *vfObj) TransferError(err error) {
 		o.closedBeforeTE.Add(1)
 	}
 	o.transferErrs.Add(1)
+	if o.st.TransferErrorPoisons {
+		o.poison.Store(true)
+	}
 }
 
 func (o *vfObj) CtxDone() bool {
